@@ -55,6 +55,7 @@ class RefModel:
     def __init__(self):
         self.nodes = {}        # name -> dict(cls, op, pos=[('n',name)|('c',digest)], param, meta)
         self.observed = {}     # name -> digest
+        self.pending = set()   # observed data declared for nodes that do not exist yet
 
     def clone(self):
         return pycopy.deepcopy(self)
@@ -163,7 +164,7 @@ def real_canon(model, known=()):
     return nodes, obs
 
 
-def consistent(model, known=()):
+def consistent(model, known=(), pending=()):
     net = model.source_net
     if not nx.is_directed_acyclic_graph(net):
         return 'cycle'
@@ -176,7 +177,7 @@ def consistent(model, known=()):
         if net.degree(n) == 0 and is_private_const(model, n, known):
             return 'orphan-private-constant'
     for k in model.observed:
-        if k not in net.nodes:
+        if k not in net.nodes and k not in pending:
             return 'observed-of-missing-node'
     return None
 
@@ -271,6 +272,12 @@ def _run(tape, out, elfi, root):
             tape.chance('auto_named', 1, 6)
         if auto:
             name, star = None, False
+        elif cls in ('Simulator', 'Summary') and r.pending and tape.chance('declared_name', 1, 2):
+            # the node whose observed data was declared ahead is created now
+            name, star = tape.choice('pending_name', sorted(r.pending)), False
+            base = name
+            r.pending.discard(name)
+            out.probes['node_created_after_its_observed_data'] += 1
         meta = False
         if cls == 'Constant':
             val = float(tape.int('const_value', 1, 20)) * 0.25
@@ -415,6 +422,19 @@ def _run(tape, out, elfi, root):
         r.observed[n] = sp.dg(val)
         return 'set-observed'
 
+    def declare_observed(P):
+        """Observed data given before the node exists (ElfiModel(observed={...}) / model.observed
+        [name] = y ahead of the node): it waits, through any other edit, for the node."""
+        m, r = P.model, P.ref
+        if len(r.pending) >= 2:
+            return None
+        name = fresh('y')
+        val = np.array([[float(tape.int('obs', 1, 99)) * 0.5]])
+        m.observed[name] = val
+        r.observed[name] = sp.dg(val)
+        r.pending.add(name)
+        return 'declare-observed'
+
     def set_meta(P):
         m, r = P.model, P.ref
         cands = [n for n in sorted(r.nodes) if r.nodes[n]['cls'] in ('Operation', 'Simulator',
@@ -487,10 +507,10 @@ def _run(tape, out, elfi, root):
             opname = tape.choice('op', ['add', 'add', 'become', 'remove', 'set_params',
                                         'set_observed', 'copy', 'saveload', 'set_meta', 'add',
                                         'copy', 'named_edge', 'become', 'explicit_slots',
-                                        'become_inline'])
+                                        'become_inline', 'declare_observed'])
         if opname in ('copy', 'saveload') and len(parties) >= 4:
             opname = 'add'
-        fn = {'add': add_node, 'become': become, 'become_inline': become_inline, 'remove': remove, 'set_params': set_params,
+        fn = {'add': add_node, 'become': become, 'become_inline': become_inline, 'declare_observed': declare_observed, 'remove': remove, 'set_params': set_params,
               'set_observed': set_observed, 'copy': do_copy, 'saveload': do_saveload,
               'set_meta': set_meta, 'named_edge': add_named_edge,
               'explicit_slots': add_explicit_slots}[opname]
@@ -516,7 +536,7 @@ def _run(tape, out, elfi, root):
                 out.probes['mutation_with_other_parties_alive'] += 1
         # ---- inspect EVERY party
         for Q in parties:
-            bad = consistent(Q.model, Q.ref.nodes)
+            bad = consistent(Q.model, Q.ref.nodes, Q.ref.pending)
             if bad:
                 out.violate('consistent-dag', bad, step=step, op=done, party=Q.role)
                 return
